@@ -666,6 +666,16 @@ func (se *symExec) execAssign(x *ast.AssignStmt, st *sstate) []*sstate {
 			}
 			return out
 		default:
+			if ix, ok := r.(*ast.IndexExpr); ok && len(x.Lhs) == 2 {
+				if hits := se.tableLookup(ix, st); hits != nil {
+					for _, h := range hits {
+						se.assignTo(x.Lhs[0], h.v, h.st, x.Pos(), "")
+						se.assignTo(x.Lhs[1], val{kind: vBool, bk: true, b: h.found}, h.st, x.Pos(), "")
+						out = append(out, h.st)
+					}
+					return out
+				}
+			}
 			for _, e := range se.eval(x.Rhs[0], st) {
 				for i, l := range x.Lhs {
 					v := unk("")
@@ -2948,6 +2958,96 @@ func (se *symExec) evalBuiltin(name string, call *ast.CallExpr, st *sstate) []pa
 	var out []pathResult
 	for _, r := range se.evalList(call.Args, st) {
 		out = append(out, pathResult{r.st, []val{unk(name)}})
+	}
+	return out
+}
+
+type tableHit struct {
+	st    *sstate
+	v     val
+	found bool
+}
+
+// tableLookup: `T[k]` on a read-only literal table of this package is the decision `switch k { case K1: V1 … }`:
+// one state per entry, in the order of the literal, under the condition the switch would record, and the miss.
+func (se *symExec) tableLookup(ix *ast.IndexExpr, st *sstate) []tableHit {
+	t := tableLiteral(se.c, se.info, ix.X)
+	if t == nil || t.info != se.info || len(t.entries) == 0 || len(t.entries) > 64 {
+		return nil
+	}
+	ks := se.eval(ix.Index, st)
+	if len(ks) != 1 {
+		return nil
+	}
+	remaining := ks[0].st
+	kv := ks[0].v
+	tagS := se.canon(ix.Index)
+	if kv.kind == vUnknown && kv.desc != "" && kv.lit == nil && se.emitMode {
+		tagS = kv.desc
+	}
+	var out []tableHit
+	for _, en := range t.entries {
+		if remaining == nil {
+			break
+		}
+		var hit *sstate
+		cv := se.evalInt(en.key, remaining)
+		if kv.kind == vInt && cv != nil {
+			d := kv.lin.sub(cv)
+			if d.isConst() {
+				if d.c != 0 {
+					continue
+				}
+				hit, remaining = remaining, nil
+			} else {
+				excluded := false
+				for _, n := range remaining.nes {
+					if n.equal(d) || n.equal(d.scale(-1)) {
+						excluded = true
+					}
+				}
+				if excluded {
+					continue
+				}
+				red := reduceWith(d, remaining.eqs)
+				if red.isConst() {
+					if red.c != 0 {
+						continue
+					}
+					hit, remaining = remaining, nil
+				} else {
+					hit = remaining.clone()
+					hit.eqs = append(hit.eqs, d)
+					cn := se.enumConst(en.key)
+					hit.conds = append(hit.conds, linCondNamed(d, "==", cn))
+					remaining.nes = append(remaining.nes, d)
+					remaining.conds = append(remaining.conds, linCondNamed(d, "!=", cn))
+				}
+			}
+		} else {
+			hit = remaining.clone()
+			hit.conds = append(hit.conds, tagS+" == "+se.canon(en.key))
+			remaining.conds = append(remaining.conds, tagS+" != "+se.canon(en.key))
+		}
+		vs := se.eval(en.val, hit)
+		if len(vs) != 1 {
+			return nil
+		}
+		out = append(out, tableHit{vs[0].st, vs[0].v, true})
+	}
+	if remaining != nil {
+		zero := unk("")
+		if m, ok := t.v.Type().Underlying().(*types.Map); ok {
+			if b, ok := m.Elem().Underlying().(*types.Basic); ok {
+				switch {
+				case b.Info()&types.IsInteger != 0:
+					zero = val{kind: vInt, lin: linConst(0)}
+				case b.Kind() == types.Bool:
+					zero = val{kind: vBool, bk: true, b: false}
+				}
+			}
+		}
+		out = append(out, tableHit{remaining, zero, false})
 	}
 	return out
 }
